@@ -19,7 +19,9 @@ Atoms == {"EMPTY", "BLANK", "WORD", "NEG", "ZERO", "ONE", "SEVEN", "HUGE", "FRAC
           "SUP", "ARDIG",      \* "²" (isdigit but not a decimal numeral) and an Arabic-Indic digit
           \* date texts: a 14-digit timestamp that is no date, one in year 1, "@" + a float far out of
           \* range; a digit string longer than any integer conversion accepts; 200 nested parentheses
-          "TS14BAD", "TS14YR1", "ATEXP", "DIGITS", "DEEP"}
+          "TS14BAD", "TS14YR1", "ATEXP", "DIGITS", "DEEP",
+          \* a text of several pieces and small positions / limits (string functions with 3-4 arguments)
+          "WORDS", "TWO", "THREE", "NEG1"}
 ExprValue == {"NEG", "ZERO", "ONE", "SEVEN", "HUGE", "FRAC", "E"}   \* texts that are a well-formed #expr
 \* page titles the call is expanded on
 Titles == {"plain", "talk", "nstalk", "user"}
